@@ -129,6 +129,52 @@ func ruleTracking(w *World, r *Report, rule string, wantScopedStore, wantTransie
 				bad = w.Pos(ex.Pos)
 			}
 		}
+		// the test must look at the instance itself and be reached on every path that owns the instance
+		testedSpec := Spec{Must: true, Node: func(n ast.Node, in Facts) (gen, kill []string) {
+			if as, ok := n.(*ast.AssignStmt); ok && len(as.Rhs) == 1 {
+				if ta, ok := unparen(as.Rhs[0]).(*ast.TypeAssertExpr); ok && ta.Type != nil {
+					if tv, ok := finfo.Types[ta.Type]; ok && isNamedType(tv.Type, modPath, "Disposable") {
+						gen = append(gen, "instance-tested")
+					}
+				}
+			}
+			return
+		}, Edge: condEdge(w, finfo, 1)}
+		var flows []*Flow
+		if f == fi {
+			for _, lt := range []string{"Scoped", "Transient"} {
+				if stmts, ok := caseRegion(finfo, sw, lt); ok {
+					flows = append(flows, synthFlow(w, f, stmts))
+				}
+			}
+		} else {
+			flows = append(flows, fl)
+		}
+		for _, rf := range flows {
+			tsol := rf.Solve(testedSpec)
+			for _, ex := range rf.Exits() {
+				if ex.Panic {
+					continue
+				}
+				if ex.Ret != nil && (len(ex.Ret.Results) != 1 || !isNilIdent(finfo, ex.Ret.Results[0])) {
+					continue // error exits
+				}
+				at := tsol.AtExit(ex)
+				if at.Has("instance-tested") {
+					continue
+				}
+				nilInstance := false
+				for k := range at {
+					if strings.HasSuffix(k, "=nil") {
+						nilInstance = true // setSingleton ignores nil instances
+					}
+				}
+				if nilInstance && f == ro.setSingleton {
+					continue
+				}
+				r.Fail(rule, f.Name()+"#instance-tested", ex.Pos, "a success exit is reached without having asked the instance itself whether it is a Disposable: disposability decided from anything else (the registered type, a cached flag) misses instances whose concrete type has a Close method")
+			}
+		}
 		r.Check(bad == "", rule, f.Name()+"#disposable-path", f.Decl.Pos(), true,
 			"on every path on which the instance is a Disposable it is appended to the owner's list, or closed on the spot when the owner was found disposed",
 			"the exit at "+bad+" is reached with a Disposable instance that was neither tracked nor closed")
@@ -196,7 +242,7 @@ func ruleBuildCleanup(w *World, r *Report, rule string) {
 	fl := w.FlowOf(fi)
 	startsWork := func(c *ast.CallExpr) bool {
 		cal := callee(info, c)
-		return cal != nil && (cal == ro.createAll.Obj || cal == ro.runInits.Obj || cal == ro.createInstance.Obj || (ro.newScope != nil && cal == ro.newScope.Obj))
+		return cal != nil && (cal == ro.createAll.Obj || cal == ro.runInits.Obj || ro.isCreate(cal) || (ro.newScope != nil && cal == ro.newScope.Obj))
 	}
 	may := fl.Solve(Spec{Must: false, Node: func(n ast.Node, in Facts) (gen, kill []string) {
 		for _, c := range callsIn(n, false) {
